@@ -226,6 +226,7 @@ fn compound(src: &mut Src, st: &mut Stats, _env: &Env) -> CaseResult {
         Out::Val(j) if !j.contains_expref() => Some(j.clone()),
         _ => None,
     };
+    let l_result_text = lj.as_ref().map(|j| j.to_json()).unwrap_or_else(|| "null".to_string());
     st.eval();
     let mut nontrivial = false;
     let compound_text: String;
@@ -579,6 +580,12 @@ fn compound(src: &mut Src, st: &mut Stats, _env: &Env) -> CaseResult {
         }
     }
     let _ = hint_of;
+    // the same compiled compound on this document, on documents where its parts mean something
+    // else (null, an empty object, the left part's own result), and on this document again
+    if src.chance(60) {
+        crate::imp::reuse_agrees("compound", &compound_text, &[dt.as_str(), "null", "{}", l_result_text.as_str(), dt.as_str()])?;
+        st.class("compound:reused-on-other-documents");
+    }
     if nontrivial && st.nontrivial(&format!("{}\u{0}{}", compound_text, dt)) {
         st.sample(|| json!({"expression": compound_text, "document": dt}));
     }
